@@ -21,13 +21,13 @@ claim("C03", "model_checking",
 claim("C04", "model_checking",
       "Relational check between three pieces of the real code (_calc_target_power, get_status, _Report.adjust_to_bounds) under a declaratively stated conflict-free precondition: "
       "the target is the admissible value closest to the lowest-priority preference, the reported bounds are the declared intersection carved by the exclusion zone, "
-      "adjust_to_bounds contains the target, an empty proposal at any priority changes nothing. All values symbolic; 1 bound-setter + 1 preference exhaustive.", TRUST, "DESIGN.md section 4 C04")
+      "adjust_to_bounds contains the target, an empty proposal at any priority changes nothing. All values symbolic; 1 bound-setter + 1 preference (also with symbolic bounds of its own) exhaustive in quick, 2 bound-setters + 1 preference exhaustive in thorough.", TRUST, "DESIGN.md section 4 C04")
 claim("C05", "translation_validation", TV + ". Strings (Tokenizer + shunting yard) with <=4 operands in 4 renderings, operator API trees with <=3 operands plus wrappers/constants, "
       "larger ones by operator subsets; reference = Python's own evaluation of the same expression.", TRUST, "DESIGN.md section 4 C05")
 claim("C06", "model_checking",
       "The real FormulaEvaluator/FormulaEngine run on a virtual-time event loop with symbolic per-stream first timestamps (proxy datetimes used as the evaluator's own dict keys) and "
-      "symbolic values; the output value term reveals which (stream, sample) pairs were combined; z3 proves timestamp and value of every output for every offset vector under 4 delivery modes; the same for FormulaEngine3Phase over three per-phase engines.",
-      TRUST + "; other interleavings are covered by a Kahn-network argument that is stated, not checked", "DESIGN.md section 4 C06")
+      "symbolic values; the output value term reveals which (stream, sample) pairs were combined; z3 proves timestamp and value of every output for every offset vector under 4 delivery modes; the same for FormulaEngine3Phase over three per-phase engines; interleave instances make the schedule itself symbolic (which stream delivers next, whether the engine runs before the next delivery, after how many deliveries the consumer subscribes) and exhaust every FIFO-preserving schedule of 2 streams x 3 samples (quick) / 3 x 2 and 2 x 4 (thorough).",
+      TRUST + "; schedules beyond those bounds are covered by a Kahn-network argument that is stated, not checked", "DESIGN.md section 4 C06")
 claim("C07", "model_checking",
       "Resampler.__init__/_calculate_window_end executed with symbolic now, align_to and period (non-linear integer arithmetic): alignment, range and the hand-set timer start are proved; "
       "the real resample() tick loop is run with a stand-in timer yielding arbitrary symbolic drifts, series added while running (between ticks and while the tick's gather is pending), a failing sink, a sink blocking for several periods; align_to also as concrete aware datetimes in non-UTC zones; concrete timelines with align_to centuries away and in a zone with DST changes (real datetime/tzinfo semantics).", TRUST + "; the real frequenz.channels Timer is replaced by a stand-in with the TriggerAllMissed contract",
